@@ -30,8 +30,8 @@ type comp struct {
 	uid  string
 }
 
-func inputSx(method bool, comps []comp) string {
-	items := []string{"cal", hx.B(method)}
+func inputSx(method int, comps []comp) string {
+	items := []string{"cal", hx.I(int64(method))}
 	for _, c := range comps {
 		switch c.kind {
 		case 'n':
@@ -45,9 +45,9 @@ func inputSx(method bool, comps []comp) string {
 	return hx.L(items...)
 }
 
-func parseInput(x hx.Sx) (bool, []comp) {
+func parseInput(x hx.Sx) (int, []comp) {
 	args := x.Args()
-	method := args[0].Bool()
+	method := int(args[0].Int())
 	var comps []comp
 	for _, c := range args[1:] {
 		cc := comp{name: c.List[0].Str(), kind: c.List[1].Atom[0]}
@@ -59,12 +59,27 @@ func parseInput(x hx.Sx) (bool, []comp) {
 	return method, comps
 }
 
-func build(method bool, comps []comp) *ical.Calendar {
+// methodVariants: a METHOD property is a METHOD property whatever its value looks like
+// (0 = no METHOD property; the model only knows whether one is present).
+var methodVariants = []func(p *ical.Prop){
+	nil,
+	func(p *ical.Prop) { p.SetText("PUBLISH") },
+	func(p *ical.Prop) { p.Value = "" },
+	func(p *ical.Prop) { p.Value = ",REQUEST" },
+	func(p *ical.Prop) { p.Value = "REQUEST\\" },
+	func(p *ical.Prop) { p.Value = "QUJD"; p.Params.Set("VALUE", "BINARY") },
+	func(p *ical.Prop) { p.SetText("request") },
+	func(p *ical.Prop) { p.Value = "bad\\xescape" },
+}
+
+func build(method int, comps []comp) *ical.Calendar {
 	cal := ical.NewCalendar()
 	cal.Props.SetText(ical.PropVersion, "2.0")
 	cal.Props.SetText(ical.PropProductID, "-//verif//EN")
-	if method {
-		cal.Props.SetText(ical.PropMethod, "PUBLISH")
+	if method > 0 && method < len(methodVariants) {
+		p := ical.NewProp(ical.PropMethod)
+		methodVariants[method](p)
+		cal.Props.Set(p)
 	}
 	for _, c := range comps {
 		cc := ical.NewComponent(c.name)
@@ -173,7 +188,11 @@ func main() {
 	}
 	var rec func(prefix []comp)
 	rec = func(prefix []comp) {
-		for _, m := range []bool{false, true} {
+		ms := []int{0, 1}
+		if len(prefix) <= 2 {
+			ms = []int{0, 1, 2, 3, 4, 5, 6, 7}
+		}
+		for _, m := range ms {
 			t := "f"
 			if len(prefix) <= textLen {
 				t = "t"
@@ -218,7 +237,11 @@ func main() {
 			}
 			comps = append(comps, c)
 		}
-		inputs <- [2]string{inputSx(rng.Chance(1, 10), comps), "t"}
+		m := 0
+		if rng.Chance(1, 10) {
+			m = 1 + rng.Intn(len(methodVariants)-1)
+		}
+		inputs <- [2]string{inputSx(m, comps), "t"}
 	}
 	close(inputs)
 	wg.Wait()
